@@ -66,11 +66,12 @@ func (h *H) Del(name string) {
 
 // Req describes a request before signing.
 type Req struct {
-	Method string
-	Path   string // wire path, already percent-encoded (use EncodePath for keys)
-	Query  string // wire query without '?', already encoded (use Q to build)
-	Header H
-	Body   []byte
+	Method    string
+	Path      string // wire path, already percent-encoded (use EncodePath for keys)
+	CanonPath string // if set: the canonical URI used for signing instead of Path (hostile wire spellings)
+	Query     string // wire query without '?', already encoded (use Q to build)
+	Header    H
+	Body      []byte
 
 	// Signing
 	NoSign      bool      // send without any authorization
@@ -319,6 +320,10 @@ func (c *Client) Build(r *Req) *Built {
 		path = "/"
 	}
 	b := &Built{Method: r.Method}
+	signPath := path
+	if r.CanonPath != "" {
+		signPath = r.CanonPath
+	}
 
 	payloadHash := r.PayloadHash
 	if r.Stream != nil {
@@ -364,7 +369,7 @@ func (c *Client) Build(r *Req) *Built {
 			q += "&"
 		}
 		q += add
-		creq := r.Method + "\n" + path + "\n" + canonicalQuery(q, "") + "\n" + "host:" + trimAll(hdr.Get("Host")) + "\n\n" + "host" + "\n" + payloadHash
+		creq := r.Method + "\n" + signPath + "\n" + canonicalQuery(q, "") + "\n" + "host:" + trimAll(hdr.Get("Host")) + "\n\n" + "host" + "\n" + payloadHash
 		sts := "AWS4-HMAC-SHA256\n" + amzDate + "\n" + scope + "\n" + SHA256Hex([]byte(creq))
 		sig := hex.EncodeToString(hmacSHA256(SigningKey(sk, day, region, service), sts))
 		q += "&X-Amz-Signature=" + sig
@@ -418,7 +423,7 @@ func (c *Client) Build(r *Req) *Built {
 		ch.WriteString(n + ":" + strings.Join(vals[n], ",") + "\n")
 	}
 	signedHdrs := strings.Join(names, ";")
-	creq := r.Method + "\n" + path + "\n" + canonicalQuery(r.Query, "") + "\n" + ch.String() + "\n" + signedHdrs + "\n" + payloadHash
+	creq := r.Method + "\n" + signPath + "\n" + canonicalQuery(r.Query, "") + "\n" + ch.String() + "\n" + signedHdrs + "\n" + payloadHash
 	sts := "AWS4-HMAC-SHA256\n" + amzDate + "\n" + scope + "\n" + SHA256Hex([]byte(creq))
 	key := SigningKey(sk, day, region, service)
 	sig := hex.EncodeToString(hmacSHA256(key, sts))
